@@ -234,8 +234,7 @@ def stream_mc(ctx, only=None):
     if only is not None:
         cases = only
     else:
-        cases = corpus_cases('mc') + [gen_mc_case(rng) for _ in range(ctx.n(70, 1500))]
-        cases += [dict(c) for c in CONFLICT_CASES]
+        cases = corpus_cases('mc') + [gen_mc_case(rng) for _ in range(ctx.n(60, 500))]
     res = run_eval(ctx, cases)
     vcases, meta = [], []
     tcases = []
@@ -292,7 +291,7 @@ def stream_mc(ctx, only=None):
             # numbering and table -> stream table (exact, in Coq); consistent declarations only
             if not conflict and o.get('names') is not None and (path == 'sim' or o.get('table')):
                 tcases.append(('formula', c, path, o))
-    verdicts = check_values(ctx, 'c10mc', vcases, relbits=-30) if vcases else []
+    verdicts = check_values(ctx, 'c10mc', vcases, relbits=-30, batch=max(20, min(150, len(vcases) // 15 + 1))) if vcases else []
     und = 0
     anyrow = {}
     for (c, path, i, obs, flag), (v, info) in zip(meta, verdicts):
@@ -477,7 +476,7 @@ def stream_table(ctx, tcases, only=None):
     if only is not None:
         dcases = only
     else:
-        dcases = corpus_cases('table') + [gen_table_case(rng) for _ in range(ctx.n(120, 2500))] + \
+        dcases = corpus_cases('table') + [gen_table_case(rng) for _ in range(ctx.n(120, 1500))] + \
             [gen_shadow_case(rng) for _ in range(ctx.n(12, 120))]
     dres = ctx.impl_cases('c10_draws.py', dcases, {'mode': 'table'}, chunk=40, key='cases')
     items, icases = [], []
@@ -699,7 +698,7 @@ def stream_native(ctx, only=None):
                     'observation vs proved enclosure of the mean computed from the arrays recorded for the declared types; the table handed to the '
                     'engine must consist of exactly those arrays; non-trivial = >= 2 variables and verdict decided; distinct by (case, observation)')
     rng = ctx.sub_rng('native')
-    cases = only if only is not None else [gen_native_case(rng, i) for i in range(ctx.n(42, 600))]
+    cases = only if only is not None else [gen_native_case(rng, i) for i in range(ctx.n(42, 300))]
     res = run_eval(ctx, cases, chunk=8)
     vcases, meta = [], []
     gens_used = {}
@@ -714,7 +713,7 @@ def stream_native(ctx, only=None):
         o = r.get(path) or {}
         if 'exc' in o:
             odd_anti = c['R'] % 2 == 1 and any('ANTI' in t for _, t in c['draws'])
-            if shape_refusal(o['exc']) and odd_anti:
+            if odd_anti and (shape_refusal(o['exc']) or 'even number of draws' in o['exc']):
                 st.record({'refused_odd_R_antithetic': [t for _, t in c['draws']], 'R': c['R']}, nontrivial=False)
                 continue
             ctx.violation(f'C10/native/{path}/error', 'evaluation of a Monte-Carlo formula over native draws failed', witness(c, path=path),
@@ -737,7 +736,7 @@ def stream_native(ctx, only=None):
             env = {'beta': benv, 'var': row, 'draws': [{n: ser[n][i][rr] for n, _ in c['draws']} for rr in range(c['R'])]}
             vcases.append({'expr': plain, 'env': env, 'observed': v if isinstance(v, float) else 'error'})
             meta.append((c, path, i, v))
-    verdicts = check_values(ctx, 'c10nat', vcases, relbits=-30) if vcases else []
+    verdicts = check_values(ctx, 'c10nat', vcases, relbits=-30, batch=max(10, min(150, len(vcases) // 15 + 1))) if vcases else []
     und = 0
     for (c, path, i, obs), (v, info) in zip(meta, verdicts):
         case = {'formula': strip_sids(c['tree']), 'draws': c['draws'], 'R': c['R'], 'np_seed': c['np_seed'], 'seed': c['seed'], 'path': path, 'obs': i}
@@ -767,7 +766,7 @@ def stream_seed(ctx, only=None):
         groups = only
     else:
         groups = []
-        for i in range(ctx.n(14, 160)):
+        for i in range(ctx.n(14, 80)):
             k = rng.choice([1, 2, 3])
             types = rng.sample(NATIVE_ALL, k) if rng.random() < 0.3 else rng.sample(NATIVE_RNG, k)
             names = rng.sample(DRAW_NAMES, k)
@@ -924,7 +923,7 @@ def stream_integrate(ctx, only=None):
                     'get_value_c with and without database, BIOGEME.simulate; |engine - closed form| <= 1e-4 * max(1, |closed form|) in exact '
                     'rationals; all non-trivial; distinct by (family, case)')
     rng = ctx.sub_rng('integrate')
-    cases = only if only is not None else [gen_integrate_case(rng, i) for i in range(ctx.n(60, 1200))]
+    cases = only if only is not None else [gen_integrate_case(rng, i) for i in range(ctx.n(60, 600))]
     res = run_eval(ctx, cases, chunk=15)
     how = 'lib/impl/c10_draws.py mode eval on witness.case; closed form in witness.ref'
     tol = Fraction(1, 10 ** 4)
@@ -1143,7 +1142,7 @@ def stream_derive(ctx, only=None):
                     'tagged draws; get_value_c per observation and BIOGEME.simulate vs proved enclosure of the symbolic derivative D (Model/Deriv.v); '
                     'non-trivial = verdict decided and f has >= 6 nodes; distinct by (formula, target, observation, path)')
     rng = ctx.sub_rng('derive')
-    cases = only if only is not None else corpus_cases('derive') + [gen_derive_case(rng) for _ in range(ctx.n(80, 1500))]
+    cases = only if only is not None else corpus_cases('derive') + [gen_derive_case(rng) for _ in range(ctx.n(70, 500))]
     res = run_eval(ctx, cases, chunk=12)
     vcases, meta = [], []
     how = 'lib/impl/c10_draws.py mode eval on witness.case'
@@ -1170,7 +1169,7 @@ def stream_derive(ctx, only=None):
                     v = o['values'][i]
                     vcases.append({'expr_text': text, 'env': env, 'observed': v if isinstance(v, float) else 'error'})
                     meta.append((c, path, i, v))
-    verdicts = check_values_D(ctx, 'c10der', vcases) if vcases else []
+    verdicts = check_values_D(ctx, 'c10der', vcases, batch=max(10, min(100, len(vcases) // 15 + 1))) if vcases else []
     und = 0
     errs = {}
     for (c, path, i, obs), (v, info) in zip(meta, verdicts):
@@ -1185,9 +1184,10 @@ def stream_derive(ctx, only=None):
             continue
         st.record(case, nontrivial=tree_size(c['tree']) >= 6)
         if v == 'differ':
-            st.disagree(case, info, obs)
-            ctx.violation(f'C10/derive/{c["wrt"][0]}/{path}', 'Derive does not return the partial derivative of its argument with respect to the '
-                          'named parameter / variable', witness(c, path=path, observation=i, wrt=c['wrt']), info, obs, how)
+            cls = 'bioLinearUtility/' if 'LinUtil' in heads_in(c['tree']) else ''
+            if ctx.violation(f'C10/derive/{cls}{c["wrt"][0]}/{path}', 'Derive does not return the partial derivative of its argument with respect '
+                             'to the named parameter / variable', witness(c, path=path, observation=i, wrt=c['wrt']), info, obs, how):
+                st.disagree(case, info, obs)
     for (c, path, exc_, vs) in errs.values():
         st.record({'formula': strip_sids(c['tree']), 'error': exc_[:80]}, nontrivial=False)
         if vs and not any(x in ('agree', 'undecided') for x in vs):
@@ -1215,13 +1215,23 @@ def corpus_cases(stream):
 def run(ctx):
     ctx.assumptions += ASSUME
     ctx.trusted += TRUSTED
+    import time
+    t0 = time.time()
     ctx.build()
-    tcases = stream_mc(ctx)
-    stream_table(ctx, tcases)
-    stream_native(ctx)
-    stream_seed(ctx)
-    stream_integrate(ctx)
-    stream_derive(ctx)
+    walls = {'build': round(time.time() - t0, 1)}
+
+    def timed(name, f, *a):
+        t = time.time()
+        r = f(ctx, *a)
+        walls[name] = round(time.time() - t, 1)
+        return r
+    tcases = timed('mc', stream_mc)
+    timed('table', stream_table, tcases)
+    timed('native', stream_native)
+    timed('seed', stream_seed)
+    timed('integrate', stream_integrate)
+    timed('derive', stream_derive)
+    ctx.notes['stream_wall_s'] = walls
 
 
 def replay(ctx, path):
